@@ -3,7 +3,8 @@
 From Coq Require Import List NArith Bool Lia String.
 From Breadlog Require Import Model.Peg Model.Text Model.Regex Model.Glue Model.Tables.
 From Breadlog Require Import Gen.Grammar Gen.Consts.
-From Breadlog Require Import Proofs.PegFacts Proofs.RuleLemmas Proofs.GlueSpec.
+From Breadlog Require Import Gen.Regexes.
+From Breadlog Require Import Proofs.PegFacts Proofs.RuleLemmas Proofs.GlueSpec Proofs.RegexFacts Proofs.CommentRegex.
 From Breadlog Require Import Properties.Common.
 Import ListNotations.
 Open Scope N_scope.
@@ -39,9 +40,44 @@ Proof. exact (scan_lines_nil the_params). Qed.
 (* (4) what the directives do: ignore => no entry (C11_unconfigured_or_ignored_is_skipped);
    no-kvp in structured mode => the message-style entry (C10_message_entry) *)
 
-(* NOT proved: the regex-level statement that exactly the comments whose trimmed, lower-cased text
-   is the directive are recognised, for all spellings; that is covered by the oracle campaign and the
-   enumerated placements. *)
+(* (5) WHICH COMMENTS ARE DIRECTIVES, on the TRANSLATED comment regex (RUST_COMMENT_PATTERN, leftmost-first
+   semantics), for ALL comment texts: when the nearest non-blank line, trimmed, is a line comment
+   "//" body (body: any non-empty text) the directive d is in force iff body -- lower-cased with the
+   translated Unicode table, then trimmed -- is d.  So every spelling in any letter case and with any
+   white space around it counts, and nothing else does (a longer text, a misspelling, the other
+   directive).  Likewise for a block comment "/*" body "*/" that makes up the whole line. *)
+Theorem C14_line_comment_directive : forall d l body ls,
+  hd_error d <> Some 47 ->
+  trim is_ws_tab l = ([47; 47] ++ body)%list -> body <> [] -> dots body = true ->
+  scan_lines the_params d re_RUST_COMMENT_PATTERN (l :: ls) = text_eqb (norm body) d.
+Proof. exact directive_on_line_comment. Qed.
+
+Theorem C14_block_comment_directive : forall d l body ls,
+  hd_error d <> Some 47 ->
+  trim is_ws_tab l = ([47; 42] ++ body ++ [42; 47])%list -> body <> [] -> dots body = true ->
+  scan_lines the_params d re_RUST_COMMENT_PATTERN (l :: ls) = text_eqb (norm body) d.
+Proof. exact directive_on_block_comment. Qed.
+
+(* `dots` only excludes what a line cannot contain anyway: a newline (and values that are no scalar) *)
+Theorem C14_dot_class : forall c, in_ranges dot c = true <-> c <> 10 /\ c <= 1114111.
+Proof. exact in_dot. Qed.
+
+(* both directives of Breadlog satisfy the side condition, and the regex in the parameters is the
+   translated one *)
+Theorem C14_directives_apply :
+  (hd_error (p_ignore the_params) <> Some 47 /\ hd_error (p_no_kvp the_params) <> Some 47) /\
+  p_comment_re the_params = re_RUST_COMMENT_PATTERN.
+Proof. exact (conj directives_no_slash comment_re_is_RE). Qed.
+
+(* a code line without any slash holds no comment: no directive (the captures = None premise of (2)) *)
+Theorem C14_code_line_without_slash : forall d l ls,
+  trim is_ws_tab l <> [] -> forallb (fun c => negb (c =? 47)) (trim is_ws_tab l) = true ->
+  scan_lines the_params d re_RUST_COMMENT_PATTERN (l :: ls) = false.
+Proof. exact scan_code_line. Qed.
+
+(* NOT proved: lines that hold a comment after code ("x(); // breadlog:ignore" -- the unanchored regex
+   finds that comment too and the directive applies), and several comments on one line; covered by
+   the oracle campaign and the enumerated placements. *)
 
 (* non-vacuity on real text through the generated grammar and the translated comment regex *)
 Example C14_nonvacuous :
@@ -61,3 +97,8 @@ Print Assumptions C14_blank_lines_are_skipped.
 Print Assumptions C14_code_line_in_between.
 Print Assumptions C14_only_nearest_line_matters.
 Print Assumptions C14_nothing_above.
+Print Assumptions C14_line_comment_directive.
+Print Assumptions C14_block_comment_directive.
+Print Assumptions C14_dot_class.
+Print Assumptions C14_directives_apply.
+Print Assumptions C14_code_line_without_slash.
